@@ -172,6 +172,8 @@ func coqType(t string) string {
 		return "go_error"
 	case tTime:
 		return "Z"
+	case "set":
+		return "list (list N)"
 	case "[]rune":
 		return "list Z"
 	case "goerr":
@@ -229,11 +231,13 @@ type libFn struct {
 
 // by import path + "." + name
 var libFuncs = map[string]libFn{
-	"strings.HasPrefix":  {coq: "strings_HasPrefix", args: []string{tStr, tStr}, res: tBool},
-	"strings.HasSuffix":  {coq: "strings_HasSuffix", args: []string{tStr, tStr}, res: tBool},
-	"strings.TrimPrefix": {coq: "strings_TrimPrefix", args: []string{tStr, tStr}, res: tStr},
-	"strings.TrimSuffix": {coq: "strings_TrimSuffix", args: []string{tStr, tStr}, res: tStr},
-	"strings.Contains":   {coq: "strings_Contains", args: []string{tStr, tStr}, res: tBool},
+	"strings.HasPrefix":           {coq: "strings_HasPrefix", args: []string{tStr, tStr}, res: tBool},
+	"strings.HasSuffix":           {coq: "strings_HasSuffix", args: []string{tStr, tStr}, res: tBool},
+	"strings.TrimPrefix":          {coq: "strings_TrimPrefix", args: []string{tStr, tStr}, res: tStr},
+	"strings.TrimSuffix":          {coq: "strings_TrimSuffix", args: []string{tStr, tStr}, res: tStr},
+	"strings.Contains":            {coq: "strings_Contains", args: []string{tStr, tStr}, res: tBool},
+	"strings.Fields":              {coq: "strings_Fields", args: []string{tStr}, res: tStrs},
+	"shanhu.io/g/strutil.MakeSet": {coq: "strutil_MakeSet", args: []string{tStrs}, res: "set"},
 
 	"path.Clean":              {coq: "path_Clean", args: []string{tStr}, res: tStr},
 	"path.Join":               {coq: "path_Join", args: []string{"...string"}, res: tStr},
@@ -1826,6 +1830,18 @@ func (t *tr) assign(x *ast.AssignStmt) string {
 			t.fail(x, "assignment of type "+ty+" to "+v.typ)
 		}
 		return v.coq
+	}
+	if len(x.Lhs) == 2 && len(x.Rhs) == 1 && (x.Tok == token.DEFINE || x.Tok == token.ASSIGN) {
+		if ie, ok := x.Rhs[0].(*ast.IndexExpr); ok {
+			// _, ok := set[key]  (a map used as a set)
+			m, tm := t.expr(ie.X)
+			if tm == "set" && isIdent(x.Lhs[0], "_") {
+				k := t.exprAs(ie.Index, tStr)
+				if n, ok := lhsName(x.Lhs[1]); ok {
+					return "let " + bind(n, tBool, x.Tok == token.DEFINE) + " := (go_set_mem " + k + " " + m + ") in\n"
+				}
+			}
+		}
 	}
 	switch x.Tok {
 	case token.DEFINE, token.ASSIGN:
